@@ -46,6 +46,17 @@ def app_warnings():
     quiet()
 
 
+def dirty_heap(value=0.4375):
+    """numpy keeps freed small blocks (< 1 KiB) in per-size buckets and hands them out again unchanged; glibc does the same for somewhat larger ones.
+    Filling and freeing blocks of every small size makes 'uninitialised' memory deterministic non-zero garbage, so an output that depends on what ran
+    earlier in the process (np.empty where np.zeros was meant) shows up on every run instead of only after particular histories."""
+    import numpy as np
+
+    junk = [np.full(n, value) for n in range(1, 600)] + [np.full(n, value) for n in (700, 1000, 1500, 2500, 4000)]
+    junk += [np.full(n, 57, np.int8) for n in range(1, 1024, 7)]
+    del junk
+
+
 def setup():
     """Warm the numba cache for the current /repo tree (used by MANIFEST.setup_cmd)."""
     import importlib
